@@ -37,3 +37,11 @@ package auth
 //@   ensures [reads-this-context] calls(metadata.FromIncomingContext, ctx) == 1
 //@   ensures [complete-taken] complete ==> result.App == md["app"][0] && result.Token == md["token"][0]
 //@   ensures [incomplete-empty] !complete ==> result.App == "" && result.Token == ""
+
+// NewAuthenticator: the gate consults THIS store under THIS key with the given strictness, through a cache of its
+// own; a cache that cannot be built is an error (no half-built gate).
+//@ func NewAuthenticator
+//@   prop C04
+//@   opaque NewCache
+//@   ensures [cache-error-no-gate] ret(collection.NewCache, 1) != nil ==> result0 == nil && result1 == ret(collection.NewCache, 1)
+//@   ensures [wired-as-given] ret(collection.NewCache, 1) == nil ==> result1 == nil && result0 != nil && fresh(result0) && result0.store == store && result0.key == key && result0.strict == strict && result0.cache == ret(collection.NewCache, 0) && calls(collection.NewCache) == 1
